@@ -289,11 +289,29 @@ func (x *Exec) Setattr(r Ref, size *uint64, touch bool) error {
 		x.logf("SETATTR %s (no size)", r.Desc)
 	}
 	if touch {
-		a.Mode = nt.Set_mode3{Set_it: true, Mode: 0644}
-		a.Uid = nt.Set_uid3{Set_it: true, Uid: 7}
-		a.Gid = nt.Set_gid3{Set_it: true, Gid: 7}
-		a.Atime = nt.Set_atime{Set_it: nt.SET_TO_CLIENT_TIME, Atime: nt.Nfstime3{Seconds: 1000, Nseconds: 5}}
-		a.Mtime = nt.Set_mtime{Set_it: nt.SET_TO_SERVER_TIME}
+		// which attributes: a function of the history so far (every combination a client can send comes up)
+		switch v := len(x.Log) % 7; v {
+		case 0:
+			a.Mode = nt.Set_mode3{Set_it: true, Mode: 0644}
+			a.Uid = nt.Set_uid3{Set_it: true, Uid: 7}
+			a.Gid = nt.Set_gid3{Set_it: true, Gid: 7}
+			a.Atime = nt.Set_atime{Set_it: nt.SET_TO_CLIENT_TIME, Atime: nt.Nfstime3{Seconds: 1000, Nseconds: 5}}
+			a.Mtime = nt.Set_mtime{Set_it: nt.SET_TO_SERVER_TIME}
+		case 1:
+			a.Mtime = nt.Set_mtime{Set_it: nt.SET_TO_CLIENT_TIME, Mtime: nt.Nfstime3{Seconds: 1000000 + nt.Uint32(len(x.Log)), Nseconds: 7}}
+		case 2:
+			a.Atime = nt.Set_atime{Set_it: nt.SET_TO_CLIENT_TIME, Atime: nt.Nfstime3{Seconds: 2000000 + nt.Uint32(len(x.Log)), Nseconds: 9}}
+		case 3:
+			a.Mode = nt.Set_mode3{Set_it: true, Mode: nt.Mode3(0600 + len(x.Log)%64)}
+		case 4:
+			a.Uid = nt.Set_uid3{Set_it: true, Uid: nt.Uid3(100 + len(x.Log))}
+			a.Gid = nt.Set_gid3{Set_it: true, Gid: nt.Gid3(200 + len(x.Log))}
+		case 5:
+			a.Mtime = nt.Set_mtime{Set_it: nt.SET_TO_SERVER_TIME}
+		default:
+			a.Atime = nt.Set_atime{Set_it: nt.SET_TO_CLIENT_TIME, Atime: nt.Nfstime3{Seconds: 3000, Nseconds: 1}}
+			a.Mtime = nt.Set_mtime{Set_it: nt.SET_TO_CLIENT_TIME, Mtime: nt.Nfstime3{Seconds: 4000 + nt.Uint32(len(x.Log)), Nseconds: 2}}
+		}
 	}
 	want := r.N != nil
 	if want && size != nil && (r.N.Kind != nt.NF3REG || *size > x.M.Lim.MaxFileSize) {
